@@ -8,7 +8,7 @@ only = sys.argv[1:]
 rows = []
 for d in sorted(os.listdir(root)):
     p = os.path.join(root, d)
-    if not os.path.isdir(p) or not re.fullmatch(r'C\d\d-m\d', d) or (only and d not in only):
+    if not os.path.isdir(p) or not re.fullmatch(r'C\d\d-m\d+', d) or (only and d not in only):
         continue
     prop = d.split('-')[0]
     patch = os.path.join(p, 'patch.rebased.diff') if os.path.exists(os.path.join(p, 'patch.rebased.diff')) else os.path.join(p, 'patch.diff')
@@ -38,7 +38,7 @@ with open(os.path.join(root, 'MATRIX.md'), 'w') as f:
     f.write('| mutant | what it changes | quick-tier result |\n|---|---|---|\n')
     for d in sorted(os.listdir(root)):
         mp = os.path.join(root, d, 'meta.json')
-        if not re.fullmatch(r'C\d\d-m\d', d) or not os.path.exists(mp):
+        if not re.fullmatch(r'C\d\d-m\d+', d) or not os.path.exists(mp):
             continue
         m = json.load(open(mp))
         f.write('| %s | %s | %s |\n' % (d, m.get('summary', '')[:110].replace('|', '/').replace('\n', ' '), ' '.join('%s:%s' % (k, v['result']) for k, v in m.get('checks_run', {}).items())))
